@@ -32,7 +32,12 @@ def other_command(rng):
         return rng.choice([[b"ECHO", rng.choice(HOSTILE)], [b"SET", b"hk", rng.choice(HOSTILE)], [b"GET", rng.choice(HOSTILE)],
                            [b"APPEND", rng.choice(HOSTILE), b"x"], [b"LPUSH", b"hl", rng.choice(HOSTILE)],
                            [b"HSET", b"hh", rng.choice(HOSTILE), rng.choice(HOSTILE)], [b"PING", rng.choice(HOSTILE)],
-                           [b"TYPE", rng.choice(HOSTILE)], [b"KEYS", rng.choice(HOSTILE)], [rng.choice(HOSTILE)]])
+                           [b"TYPE", rng.choice(HOSTILE)], [b"KEYS", rng.choice(HOSTILE)], [rng.choice(HOSTILE)],
+                           # client bytes travelling back inside errors / statuses nested in an array reply
+                           [b"EVAL", b"return {{err = ARGV[1]}, {ok = ARGV[1]}, ARGV[1], {{err = ARGV[1]}}}", b"0", rng.choice(HOSTILE[:8])],
+                           [b"EVAL", b"return {err = ARGV[1]}", b"0", rng.choice(HOSTILE[:8])],
+                           [b"EVAL", b"return {ok = ARGV[1]}", b"0", rng.choice(HOSTILE[:8])],
+                           [b"EVAL", b"return {pcall(redis.call, ARGV[1]), redis.pcall(ARGV[1], 'x')}", b"0", rng.choice(HOSTILE[:8])]])
     names = [n for n in catalogue.CATALOGUE if n not in EXCLUDED]
     name = rng.choice(names)
     a = [resp.tob(x) for x in rng.choice(catalogue.CATALOGUE[name])]
@@ -64,8 +69,21 @@ def build_pipeline(rng, m, n, pure=False):
             a = gen_any(rng, m, 0)
             if a[0].upper().decode("latin1") in EXCLUDED or a[0].upper() in (b"FLUSHALL",):
                 a = [b"PING"]
-        elif r < 0.8:
+        elif r < 0.74:
             a = other_command(rng)
+        elif r < 0.8:
+            # a transaction block: its replies (OK, QUEUED or error per command, one EXEC reply) are
+            # only counted and must be well-formed; errors of queued commands travel nested in EXEC's array
+            cmds.append([b"MULTI"])
+            for _ in range(rng.randrange(1, 5)):
+                b = other_command(rng) if rng.random() < 0.7 else gen_any(rng, m, 0)
+                nm = b[0].upper().decode("latin1") if b else ""
+                if nm in EXCLUDED or nm in ("FLUSHALL", "DEBUG"):
+                    b = [b"PING"]
+                if nm == "ECHO":
+                    b = [b"PING"] + b[1:2]
+                cmds.append(b)
+            a = [b"EXEC"] if rng.random() < 0.9 else [b"DISCARD"]
         else:
             a = [b"ECHO", b"tag-%d-%d" % (i, rng.randrange(10 ** 9))]
         cmds.append(a)
